@@ -74,7 +74,8 @@ def h_read_header(cx, L, nrows_after=2):
     pat = [ord(c) for c in "\nEND\n"]
     for i in range(L):
         cx.assume(sym_not(sym_and(*[full[i + j] == pat[j] for j in range(5) if i + j < len(full)])) if i + 5 <= len(full) else True)
-    rows = [("D", i) for i in range(nrows_after * 3)]
+    # the first bytes of the first row are arbitrary (a row may well begin with a newline byte)
+    rows = [cx.int("d0", 0, 255), cx.int("d1", 0, 255)] + [("D", i) for i in range(nrows_after * 3)]
     start = cx.choice("pos", len(full) + 1)
     f = castxx.CFile(full + rows, pos=start)
     I = interp({"mFptr": f})
